@@ -146,3 +146,11 @@ func jsonpbUnmarshal(data []byte, m *fpb.CCTransfer) error {
 	}
 	return protojson.Unmarshal(data, m)
 }
+
+func mustMarshal(m proto.Message) []byte {
+	b, err := proto.Marshal(m)
+	if err != nil {
+		panic(err)
+	}
+	return b
+}
